@@ -4,6 +4,8 @@
 id=$1; prop=$2; tier=${3:-quick}
 wt=/tmp/seedwt-$id-$$
 git -C /repo worktree add -q $wt HEAD || exit 2
+# hook files are untracked until committed: copy them
+(cd /repo && git ls-files --others --exclude-standard | grep zz_verif_hooks | while read f; do cp /repo/$f $wt/$f; done)
 git -C $wt apply /verif/seeded/$id/patch.diff || { echo "PATCH DOES NOT APPLY"; git -C /repo worktree remove --force $wt; exit 2; }
 if [ -z "$SKIP_BASELINE" ]; then VERIF_REPO=$wt python3 /verif/tools/baseline.py | tail -3; fi
 cd /verif && VERIF_REPO=$wt ./check $prop $tier | cut -c1-400
